@@ -467,7 +467,8 @@ Proof.
       assert (F1 : frame s s1) by (eapply frame_trans; [exact F0 | apply tr_close_frame]).
       apply sr_exception_B. intros; apply sr_attempt_B; auto. eapply mid_frame; eauto. eapply fut_idle_frame; eauto.
       rewrite (fr_nsend _ _ F1), (fr_retry _ _ F1). lia.
-    + set (s0 := upd_task s k _). set (s1 := s0 <| s_transport := Some t |>).
+    + destruct (has_waiter k t (s_ready s)); [exact HB|].
+      set (s0 := upd_task s k _). set (s1 := s0 <| s_transport := Some t |>).
       assert (F0 : frame s s0) by (apply upd_task_frame; reflexivity).
       assert (F1 : frame s s1) by (eapply frame_trans; [exact F0 | frame_same]).
       apply sr_after_send_B. intros; apply sr_attempt_B; auto. eapply mid_frame; eauto.
@@ -636,7 +637,7 @@ Proof.
     destruct (s_kind _). frame_same. apply frame_refl.
   - exact HB.
   - destruct (get_task k (s_tasks s)) as [tk|]; [|exact HB].
-    destruct (t_pc tk); try exact HB. destruct (t_cancelled tk); cbn [fst]; [exact HB|].
+    destruct (t_pc tk); try exact HB. destruct (_ || _); cbn [fst]; [exact HB|].
     eapply B_frame. 2: exact HB. apply push_frame.
   - destruct (tstate_of s t); try exact HB. destruct i. apply received_B; auto.
     cbn [fst]. eapply B_frame. 2: exact HB. eapply frame_trans. apply close_transport_frame. apply tr_close_frame.
